@@ -683,3 +683,41 @@ Print Assumptions C01_file_data_shape.
 Print Assumptions C01_file_index_kept.
 Print Assumptions C01_file_cell_num.
 Print Assumptions C01_file_cell_nan.
+
+(* ---- the layout of the data section is the Python's ----------------------------------------------------
+   field_width, col_fmt, the spacers, field_text and the rows written (row_text of every row, wrapped by
+   textwrap when `wrap`, each line followed by "\n") equal the code of writer.write re-translated on every
+   run from /repo (translators/funcs.py -> Gen/Funcs.v): the `if len_numeric_field is None:` block, the nested
+   functions get_column_fmt / get_left_spacing / format_data_section_line, and the block from
+   `twrapper = ...` to the end of write.  cell_wops (Proofs/FuncsPinWriteData.v) reads the external
+   operations on a sample (np.isnan, fmt % x, str) and fmt % np.pi / TextWrapper.wrap as the oracles fmtv,
+   fmt_pi and PyLib/TextWrap.wrap.  The columns are all nrows long (they are the columns of las.data). *)
+From Coq Require Import ZArith.
+Require Import Funcs FuncsPinWriteData.
+Theorem C01_lnf_current : forall fmtv fmt_pi fmt,
+  py_len_numeric_field (cell_wops fmtv fmt_pi) None fmt
+  = Some (Z.of_nat (let plen := List.length (fmt_pi fmt) in auto_lnf (S plen) plen 10)).
+Proof. exact lnf_pin. Qed.
+Theorem C01_col_fmt_current : forall o j,
+  py_get_column_fmt (Z.of_nat j) (cfmt_dict o) (wo_fmt o) = Some (col_fmt o j).
+Proof. exact (col_fmt_pin (fun _ _ => nil) (fun _ => nil)). Qed.
+Theorem C01_spacing_current : forall j lhs sp,
+  py_get_left_spacing (Z.of_nat j) lhs sp = if Nat.eqb j 0 then lhs else sp.
+Proof. exact (left_spacing_pin (fun _ _ => nil) (fun _ => nil)). Qed.
+Theorem C01_field_current : forall fmtv fmt_pi o j null_text c,
+  py_format_data_section_line (cell_wops fmtv fmt_pi) c (col_fmt o j) (lnf_z fmt_pi o)
+    (if Nat.eqb j 0 then wo_lhs_spacer o else wo_spacer o) null_text
+  = field_text fmtv fmt_pi o j null_text c.
+Proof. exact field_text_pin. Qed.
+Theorem C01_data_rows_current : forall fmtv fmt_pi o null_text cols nrows wrap lines lc out,
+  (forall c, In c cols -> List.length c = nrows) ->
+  py_write_data_rows (cell_wops fmtv fmt_pi) (Z.of_nat nrows) (Z.of_nat (List.length cols)) cols wrap (Z.of_nat (wo_data_width o))
+    lines lc out (cfmt_dict o) (wo_fmt o) (wo_lhs_spacer o) (wo_spacer o) (lnf_z fmt_pi o) null_text
+  = option_map (fun rts => out ++ emit (if wrap then flat_map (TextWrap.wrap (wo_data_width o)) rts else rts))
+               (opt_all (List.map (row_text fmtv fmt_pi o null_text 0) (rows_of nrows cols))).
+Proof. exact data_rows_pin. Qed.
+Print Assumptions C01_lnf_current.
+Print Assumptions C01_col_fmt_current.
+Print Assumptions C01_spacing_current.
+Print Assumptions C01_field_current.
+Print Assumptions C01_data_rows_current.
